@@ -1,13 +1,21 @@
+"""C06 - backmapping places rigid, centred, same-handed copies of the residue template."""
 from gen import jobgen
 from checks import _world_a as wa
 
 PROP = "C06"
 LEVEL = "exploration"
-RULE = "tbd"
+RULE = ("seeded gen_coords runs with residue types of 1-4 atoms (+ virtual site; chains, trees, rings: planar and chiral), "
+        "0..n bonded neighbours built before/after, backmapping factors {0.2,0.4,1.0}, residues supplied as centres (-mc) "
+        "mixed in; the orientation optimiser's result is replaced from the decision tape by angle triples from a fixed set "
+        "(0, +-pi/2, pi, 1e3-scale, 1e-9-scale, random) in ~70% of the calls; per backmapped residue: centre of geometry = "
+        "residue position (1e-9), Kabsch fit of factor*template onto the atoms restricted to det=+1 leaves <= 1e-8, "
+        "copies of one type congruent, file coordinates agree to 3 decimals; non-trivial = a backmapped residue with >= 2 "
+        "atoms; distinct = distinct event-log digests")
 ASSUMPTIONS = wa.ASSUMPTIONS
 REAL_VS_STUB = wa.REAL_VS_STUB
-PROBES = wa.PROBES
-PROFILE = {}
+PROBES = wa.PROBES + ["centres_supplied"]
+PROFILE = {"max_atoms": 4, "p_bf": 0.7, "faults": ["orient", "orient", "step", "opt"], "n_restypes": (1, 3),
+           "box_modes": ["cubic", "noncubic", "density"]}
 
 
 def n_runs(tier):
@@ -16,11 +24,18 @@ def n_runs(tier):
 
 def gen_job(verif_seed, tier, index):
     job, st = jobgen.base_job(PROP, verif_seed, tier, index, PROFILE)
+    g = st.gen
+    if "orient" not in job["tape"] and g.random() < 0.7:
+        from simkit.core import draw_lane
+        from gen import topgen
+        job["tape"]["orient"] = draw_lane(st.tape, 3 * topgen.n_residues(job["spec"]) + 5, 0.7, False, maxval=7)
+    if g.random() < 0.25:
+        jobgen.add_coordinates(job, g, {"coord_modes": ["meta_full", "meta_prefix", "prefix"]})
     return job
 
 
 def run_job(job):
-    return wa.run_and_tag(job, lambda j, r: True)
+    return wa.run_and_tag(job, lambda j, r: bool(r["probes"].get("backmapped_multi_atom_residue")))
 
 
 reductions = jobgen.reductions
